@@ -262,13 +262,68 @@ func childC06(tier string, rng *Rng) {
 // runBatchInProcess: sequential results first, then every case again from 16 goroutines at once
 // (each goroutine walks the batch from a different starting point).
 func runBatchInProcess(cases []c06case) {
-	seq := make([]c06res, len(cases))
+	// The encoders get the SAME message objects in every call of a case - sequentially first, then from
+	// 16 goroutines at once, as when one state is broadcast to several connections (seed C06-8: an
+	// encoder that temporarily rewrites a field of its INPUT and restores it is invisible sequentially).
+	// After each phase the objects must still equal a fresh decode of the wire bytes.
+	sharedIn := make([][]*rwp.InboundMessage, len(cases))
+	sharedOut := make([][]*rwp.OutboundMessage, len(cases))
 	for i, c := range cases {
-		seq[i] = runKind(c.kind, c.input)
+		switch c.kind {
+		case "encin":
+			sharedIn[i] = unmarshalIn(c.input)
+		case "encout":
+			sharedOut[i] = unmarshalOut(c.input)
+		}
 	}
+	run := func(i int) c06res {
+		c := cases[i]
+		switch c.kind {
+		case "encin":
+			return guarded(func() c06res {
+				ss := rwl.InboundMessagesToRawPanelASCIIstrings(sharedIn[i])
+				return c06res{"ok", len(ss), 0, digestStrings(ss)}
+			})
+		case "encout":
+			return guarded(func() c06res {
+				ss := rwl.OutboundMessagesToRawPanelASCIIstrings(sharedOut[i])
+				sorted := append([]string{}, ss...)
+				sort.Strings(sorted)
+				return c06res{"ok", len(ss), 0, digestStrings(sorted)}
+			})
+		}
+		return runKind(c.kind, c.input)
+	}
+	inputIntact := func(i int) bool {
+		switch cases[i].kind {
+		case "encin":
+			f := unmarshalIn(cases[i].input)
+			if len(f) != len(sharedIn[i]) {
+				return false
+			}
+			for k := range f {
+				if !proto.Equal(f[k], sharedIn[i][k]) {
+					return false
+				}
+			}
+		case "encout":
+			f := unmarshalOut(cases[i].input)
+			if len(f) != len(sharedOut[i]) {
+				return false
+			}
+			for k := range f {
+				if !proto.Equal(f[k], sharedOut[i][k]) {
+					return false
+				}
+			}
+		}
+		return true
+	}
+	seq := make([]c06res, len(cases))
 	conc := make([]bool, len(cases))
-	for i := range conc {
-		conc[i] = true
+	for i := range cases {
+		seq[i] = run(i)
+		conc[i] = seq[i].status != "ok" || inputIntact(i)
 	}
 	var mu sync.Mutex
 	var wg sync.WaitGroup
@@ -281,7 +336,7 @@ func runBatchInProcess(cases []c06case) {
 				if seq[i].status != "ok" {
 					continue // a panicking / hanging input is already a violation; do not repeat it 16 times
 				}
-				r := runKind(cases[i].kind, cases[i].input)
+				r := run(i)
 				if r != seq[i] {
 					mu.Lock()
 					conc[i] = false
@@ -292,6 +347,9 @@ func runBatchInProcess(cases []c06case) {
 	}
 	wg.Wait()
 	for i, c := range cases {
+		if seq[i].status == "ok" && !inputIntact(i) {
+			conc[i] = false
+		}
 		var in []Sx
 		for _, b := range c.input {
 			in = append(in, Sx(b))
@@ -807,6 +865,13 @@ func genC06(tier string, rng *Rng) {
 	for _, w := range scalarPairSweep(func() proto.Message { return &rwp.OutboundMessage{} }, thorough) {
 		add("encout", [][]byte{w})
 	}
+	// 2d. all scalar fields of one message type at boundary values at once (full or sampled product)
+	for _, w := range boundaryProduct(func() proto.Message { return &rwp.InboundMessage{} }, rng, 600*mult) {
+		add("encin", [][]byte{w})
+	}
+	for _, w := range boundaryProduct(func() proto.Message { return &rwp.OutboundMessage{} }, rng, 600*mult) {
+		add("encout", [][]byte{w})
+	}
 	// 3. random messages through reflection (sparse and dense presence), and mutated wire bytes
 	for n := 0; n < 2500*mult; n++ {
 		p := rng.Pick([]int{15, 40, 70, 100})
@@ -994,6 +1059,130 @@ func scalarPairSweep(newRoot func() proto.Message, thorough bool) [][]byte {
 						build(path, map[protoreflect.FieldDescriptor]protoreflect.Value{a: va, scalars[j]: vb})
 					}
 				}
+			}
+		}
+	}
+	walk(newRoot().ProtoReflect().Descriptor(), nil, 0)
+	return res
+}
+
+// boundaryProduct: for every message type reachable from the root, messages in which ALL scalar fields of
+// the target take values from a boundary set at once (0, 1, 2^31-1, 2^31, 2^32-1 / int32 extremes / every
+// small enum value / empty and non-empty bytes and strings): the full product when it has at most `limit`
+// elements, else `limit` random elements of it.  (seed C06-7: image type RGB16bit with W = H = 2^31
+// overflows a size computed in int; pairs of fields are not enough, three must conspire.)
+func boundaryProduct(newRoot func() proto.Message, rng *Rng, limit int) [][]byte {
+	var res [][]byte
+	seen := map[string]bool{}
+	valsFor := func(fd protoreflect.FieldDescriptor) []protoreflect.Value {
+		switch fd.Kind() {
+		case protoreflect.BoolKind:
+			return []protoreflect.Value{protoreflect.ValueOfBool(false), protoreflect.ValueOfBool(true)}
+		case protoreflect.EnumKind:
+			vs := []protoreflect.Value{}
+			for _, v := range []int32{0, 1, 2, 3} {
+				vs = append(vs, protoreflect.ValueOfEnum(protoreflect.EnumNumber(v)))
+			}
+			return vs
+		case protoreflect.Int32Kind, protoreflect.Sint32Kind, protoreflect.Sfixed32Kind:
+			return []protoreflect.Value{protoreflect.ValueOfInt32(0), protoreflect.ValueOfInt32(1), protoreflect.ValueOfInt32(-1), protoreflect.ValueOfInt32(1<<31 - 1), protoreflect.ValueOfInt32(-(1 << 31))}
+		case protoreflect.Uint32Kind, protoreflect.Fixed32Kind:
+			return []protoreflect.Value{protoreflect.ValueOfUint32(0), protoreflect.ValueOfUint32(1), protoreflect.ValueOfUint32(1<<31 - 1), protoreflect.ValueOfUint32(1 << 31), protoreflect.ValueOfUint32(1<<32 - 1), protoreflect.ValueOfUint32(65536)}
+		case protoreflect.FloatKind:
+			return []protoreflect.Value{protoreflect.ValueOfFloat32(0), protoreflect.ValueOfFloat32(-0.5), protoreflect.ValueOfFloat32(1e30)}
+		case protoreflect.StringKind:
+			return []protoreflect.Value{protoreflect.ValueOfString(""), protoreflect.ValueOfString("x")}
+		case protoreflect.BytesKind:
+			return []protoreflect.Value{protoreflect.ValueOfBytes(nil), protoreflect.ValueOfBytes([]byte{0xA5}), protoreflect.ValueOfBytes(bytes.Repeat([]byte{0x5A}, 171))}
+		}
+		return nil
+	}
+	build := func(path []protoreflect.FieldDescriptor, fds []protoreflect.FieldDescriptor, vals []protoreflect.Value) {
+		root := newRoot()
+		m := root.ProtoReflect()
+		for _, fd := range path {
+			if fd.IsList() {
+				l := m.Mutable(fd).List()
+				l.Append(l.NewElement())
+				m = l.Get(l.Len() - 1).Message()
+			} else {
+				m = m.Mutable(fd).Message()
+			}
+			if idf := m.Descriptor().Fields().ByName("HWCIDs"); idf != nil && idf.IsList() {
+				m.Mutable(idf).List().Append(protoreflect.ValueOfUint32(7))
+			}
+		}
+		for i, fd := range fds {
+			if fd.IsList() {
+				m.Mutable(fd).List().Append(vals[i])
+			} else {
+				m.Set(fd, vals[i])
+			}
+		}
+		if b, err := proto.Marshal(root); err == nil {
+			res = append(res, b)
+		}
+	}
+	var walk func(md protoreflect.MessageDescriptor, path []protoreflect.FieldDescriptor, depth int)
+	walk = func(md protoreflect.MessageDescriptor, path []protoreflect.FieldDescriptor, depth int) {
+		if depth > 5 || seen[string(md.FullName())] {
+			return
+		}
+		seen[string(md.FullName())] = true
+		fds := md.Fields()
+		var scalars []protoreflect.FieldDescriptor
+		var choices [][]protoreflect.Value
+		for i := 0; i < fds.Len(); i++ {
+			fd := fds.Get(i)
+			if fd.IsMap() {
+				continue
+			}
+			if fd.Kind() == protoreflect.MessageKind {
+				walk(fd.Message(), append(append([]protoreflect.FieldDescriptor{}, path...), fd), depth+1)
+			} else if fd.Name() != "HWCIDs" {
+				if vs := valsFor(fd); len(vs) > 0 {
+					scalars = append(scalars, fd)
+					choices = append(choices, vs)
+				}
+			}
+		}
+		if len(scalars) < 2 || len(scalars) > 9 {
+			return
+		}
+		total := 1
+		for _, c := range choices {
+			total *= len(c)
+			if total > 1<<30 {
+				break
+			}
+		}
+		pick := make([]protoreflect.Value, len(scalars))
+		if total <= limit {
+			idx := make([]int, len(scalars))
+			for {
+				for i := range idx {
+					pick[i] = choices[i][idx[i]]
+				}
+				build(path, scalars, pick)
+				k := 0
+				for k < len(idx) {
+					idx[k]++
+					if idx[k] < len(choices[k]) {
+						break
+					}
+					idx[k] = 0
+					k++
+				}
+				if k == len(idx) {
+					break
+				}
+			}
+		} else {
+			for n := 0; n < limit; n++ {
+				for i := range pick {
+					pick[i] = choices[i][rng.Intn(len(choices[i]))]
+				}
+				build(path, scalars, pick)
 			}
 		}
 	}
